@@ -26,6 +26,28 @@ CLAIMED["C20"] = dict(
     technique=TECH + ": seeded build/run/abandon/failed-build history into one store, solo-twin differential oracle",
 )
 
+CLAIMED["C06"] = dict(
+    level="exploration",
+    text="Dynamic half of the property: depth invariants (never below the frame base, exactly one pending operand at EndExpression, same depth at the same instruction on every visited path, flat reapply loops, initial depths restored at End) are evaluated after every step of generated control-flow-heavy programs whose every condition and arm is a host-resolved identifier, with the host's truth assignments swept (all 2^k for k<=6). The static all-paths abstract interpretation named in the quantifier is a different technique and is not built; path coverage is what the simulated host can steer.",
+    design="DESIGN.md §5 C06",
+    note="Trusted: depth observers (public API; Basic's private chains observed on a clone), scripted host. Side-effect blocks are generated after atoms only and else-chains always get a default arm; the two known-defect shapes are run as explicit seeds and listed in known_findings.json.",
+    technique=TECH + ": host-steered path sweep with per-step depth invariants",
+)
+CLAIMED["C07"] = dict(
+    level="fault_enumeration",
+    text="For each sampled (program, input, host script) a fault-free run measures the allocations and callbacks of the run; variants then make the data block refuse its k-th slot (k spread over the whole run, every k in the thorough tier up to 428), make the j-th callback fail / decline / churn / lie, compact after every step, vary growth knobs, and restart the program in the same object after an error. Programs are seeded with boundary literals and templates aimed at value-dependent failures; hosts provide operand values of every data type. Every step runs under catch_unwind in address-space-limited child processes; a dead or stalled shard is an abort.",
+    design="DESIGN.md §5 C07",
+    note="Only stepping is judged (pipeline rejections/panics are C03, unclaimed). Build profile: optimised with overflow-checks and debug-assertions on. Unbounded-work inputs (numeric ranges of ~2^31 elements materialised by a cast, exponentially shared value trees) are kept out of the corpus and documented as a limit.",
+    technique=TECH + ": fault enumeration over allocation points and callbacks, panic/abort net",
+)
+CLAIMED["C15"] = dict(
+    level="exploration",
+    text="Seeded histories (3..400 operations) over the whole data-interface alphabet against an abstract model of independent growable tables, on both shipped implementations; on BasicGarnishData every block gets its own initial size {0,1,2,3,10} and growth policy (FixedSize 1,2,3,7,10 / Multiplicative 2,3) and a quarter of runs a capacity limit; every address ever returned is read back (type, content, iterators, keyed lookup) together with all tables and stacks after every operation (sampled for long histories) and at the end; SimpleGarnishData's interning is checked at every add. The quantifier says 'exhaustively' for short histories: this check samples them instead and says so.",
+    design="DESIGN.md §5 C15",
+    note="Trusted: the abstract model, structural reader. Growth policies that cannot make progress are never configured. A refused operation may leave garbage at new addresses only.",
+    technique=TECH + ": store-history simulation against a reference model with growth knobs and store-full faults",
+)
+
 NOT_APPLICABLE = {
     "C01": "pure function of (source text, input value, data implementation): no schedule, fault, configuration or second party in the statement — input generation, not simulation",
     "C02": "parse is a pure function of the token sequence; deciding it means enumerating operator pairs/triples, not simulating anything",
@@ -42,11 +64,8 @@ NOT_APPLICABLE = {
 }
 
 PENDING = {
-    "C06": "claimed in DESIGN.md; check not built yet in this commit (simulation target: depth invariants at every step of host-steered runs)",
-    "C07": "claimed in DESIGN.md; check not built yet in this commit (simulation target: fault enumeration — store-full at every allocation, failing callbacks)",
     "C08": "claimed in DESIGN.md; check not built yet in this commit (simulation target: defer_op protocol with the host as second party)",
     "C10": "claimed in DESIGN.md; check not built yet in this commit (simulation target: host-call histories)",
-    "C15": "claimed in DESIGN.md; check not built yet in this commit (simulation target: store histories under growth knobs and store-full faults)",
     "C17": "claimed in DESIGN.md; check not built yet in this commit (simulation target: host-call histories)",
 }
 
